@@ -157,6 +157,13 @@ func (e *Engine) callStatic(st *St, fn *ssa.Function, args []Value, bind []Value
 			return v
 		}
 	}
+	if e.Cfg.ConcreteFmt {
+		if h, ok := concreteFmtIntrinsics[name]; ok {
+			if v, done := h(e, st, args, fn); done {
+				return v
+			}
+		}
+	}
 	if h, ok := builtinIntrinsics[name]; ok {
 		e.Stubs[name]++
 		return h(e, st, args, fn)
